@@ -18,6 +18,7 @@ CRC = 'crysp/crc.py'
 
 
 def run(ctx):
+    integrity(ctx, ['crysp/bits.py', 'crysp/crc.py'])
     ctx.rule('C15-R1 constants')
 
     def consts():
